@@ -28,6 +28,7 @@ type c06Params struct {
 	Mode    string // echo-reader | echo-closeread | echo-noreader | orders
 	Pinger  bool
 	PeerEOF bool // the peer ends its transport side right after the echo
+	Stalled bool // simultaneous: another goroutine's data frame is stuck in the transport until 1 s
 }
 
 type c06Call struct {
@@ -111,6 +112,17 @@ func c06Setup(prm c06Params) func(c *fw.Ctx, name string) explore.Setup {
 								}
 							}
 						})
+					}
+					if prm.Stalled {
+						// a data frame of another goroutine is stuck in the transport until 1 s: the local
+						// Close frame and the echo of the peer's both wait for the frame lock meanwhile
+						st.p.Window = 60
+						w.GoHarness("writer", false, func() { conn.Write(bg, websocket.MessageBinary, fill(0xAB, 100)) })
+						w.GoHarness("drainer", false, func() {
+							vtime.Sleep(time.Second)
+							st.p.SetWindow(0)
+						})
+						st.p.WaitOut("first-bytes", func(out []byte) bool { return len(out) > 0 })
 					}
 					w.GoHarness("peer-closer", false, func() { st.p.Send(peerClose(k, 4000, "bye")) })
 					w.GoHarness("closer", true, func() {
@@ -253,6 +265,15 @@ func c06Oracle(c *fw.Ctx, w *vs.World, name string, prm c06Params, st *c06State)
 		c.OutcomeStr(fmt.Sprintf("%s|sent=%v|err=%v", name, sent, st.closeErr != nil))
 		if st.closed && !sent {
 			violate(c, w, name, "C06/no-close-frame-sent/simultaneous/"+prm.K.String(), fmt.Sprintf("the peer closed with 4000 while the local Close(1000) was running; the connection was read and writable, yet no Close frame at all was sent (neither the local one nor an echo); Close returned %v", st.closeErr))
+			return
+		}
+		if cf, ok := firstClose(st.p.Out); ok {
+			// the Close frame is the local one, with exactly the code and reason given to Close, or
+			// the echo of the peer's, with exactly the peer's
+			got := fmt.Sprintf("%d/%q", closeCodeOf(cf), string(cf.Payload[min(2, len(cf.Payload)):]))
+			if got != `1000/"local"` && got != `4000/"bye"` {
+				violate(c, w, name, "C06/close-frame-differs/simultaneous/"+prm.K.String(), fmt.Sprintf("Close(1000, \"local\") ran while the peer's Close (4000, \"bye\") arrived; the Close frame on the wire carries %s, which is neither", got))
+			}
 		}
 		return
 	}
@@ -314,6 +335,12 @@ func c06Scenarios(tier string) []scenario {
 			scs = append(scs, scenario{Name: prm.Name + "/" + k.String(), Cfg: tierCfg(tier, P(1), P(2)), Setup: c06Setup(prm)})
 		}
 		for _, cr := range []bool{false, true} {
+			for _, stalled := range []bool{false, true} {
+				prm := c06Params{Name: fmt.Sprintf("simultaneous-closeread=%v-stalled=%v", cr, stalled), K: k, Mode: "simultaneous", PeerEOF: cr, Stalled: stalled}
+				if stalled {
+					scs = append(scs, scenario{Name: prm.Name + "/" + k.String(), Cfg: explore.Config{P: 1, Horizon: 60e9}, Setup: c06Setup(prm)})
+				}
+			}
 			prm := c06Params{Name: fmt.Sprintf("simultaneous-closeread=%v", cr), K: k, Mode: "simultaneous", PeerEOF: cr}
 			scs = append(scs, scenario{Name: prm.Name + "/" + k.String(), Cfg: tierCfg(tier, P(2), P(-1)), Setup: c06Setup(prm)})
 		}
